@@ -36,6 +36,9 @@ func init() {
         leaf x { type string; }
         leaf y { type string; }
         leaf z { type int32; }
+        leaf zd { type int32; default 0; }
+        leaf bf { type boolean; default false; }
+        leaf-list tags { type string; default "t1"; default "t2"; }
         container d {
           leaf u { type string; }
           leaf v { type string; }
@@ -73,6 +76,11 @@ func init() {
       }
       case c1b {
         leaf top1 { type string; }
+      }
+      case czero {
+        leaf zn { type int32; }
+        leaf zb { type boolean; }
+        leaf zs { type string; }
       }
     }
   }
